@@ -544,6 +544,9 @@ def quoted_oracle(cfg, c):
     if esc is not None and escq is not None and escq not in c and roundtrip_hyp(eq, esc, ml, cws, c) \
             and not escq.startswith(esc) and eq[0] not in escq[1:] and esc not in escq:
         return ("quoted:roundtrip-escq:%s:%r" % (tag, c), "QuotedString(%s): %r -> %r parses to %r" % (tag, c, src, got))
+    if esc is None and escq is None and (c + eq).find(eq) == len(c) and (ml or not ("\n" in c or "\r" in c)) and not (cws and unq and BSL in c):
+        # no escaping configured: any content in which the end quote does not occur (nor straddles the closing one) round-trips
+        return ("quoted:roundtrip-plain:%s:%r" % (tag, c), "QuotedString(%s): %r -> %r parses to %r" % (tag, c, src, got))
     if esc is None and escq is None and cws and unq and BSL in c and eq[0] not in c and (ml or not ("\n" in c or "\r" in c)):
         return ("quoted:ws-escape-no-esc-char", "F-18b QuotedString(%s): %r -> %r parses to %r" % (tag, c, src, got))
     return "outside"
@@ -551,7 +554,7 @@ def quoted_oracle(cfg, c):
 
 def quoted_grid():
     grid = []
-    for (q, eq) in [('"', '"'), ("[", "]"), ("<<", ">>"), (SQ3, SQ3), ("$", "$$"), ("t", "t")]:
+    for (q, eq) in [('"', '"'), ("[", "]"), ("<<", ">>"), (SQ3, SQ3), ("$", "$$"), ("t", "t"), ("<!--", "-->"), ("[[", "]]>"), ("a", "aab")]:
         for esc in [None, BSL, "^"]:
             for escq in [None, eq * 2, "$$"]:
                 for ml in [False, True]:
